@@ -11,7 +11,7 @@
 EXTENDS MonBase
 VARIABLES l, st
 vars == <<l, st>>
-St0(t, i) == [tr |-> t, pmtpids |-> {}, base |-> EmptyFn, cur |-> EmptyFn, v |-> [r |-> -1, t |-> "none", cpid |-> -1, mode |-> "", k |-> ""], at |-> i]
+St0(t, i) == [tr |-> t, pmtpids |-> {}, base |-> EmptyFn, cur |-> EmptyFn, v |-> [r |-> -1, t |-> "none", cpid |-> -1, mode |-> "", k |-> ""], at |-> i, dupref |-> <<>>]
 Init == l = 1 /\ st = St0("none", 0)
 Q(f, pid) == IF pid \in DOMAIN f THEN f[pid] ELSE <<>>
 
@@ -21,9 +21,17 @@ OnEOF(s, e, i) ==
   ELSE LET exempt == (IF s.v.cpid >= 0 THEN {s.v.cpid} ELSE {}) \cup (IF s.v.cpid = 0 THEN s.pmtpids ELSE {})
            pids == (DOMAIN s.base \cup DOMAIN s.cur) \ exempt
            bad == {p \in pids : Q(s.cur, p) # Q(s.base, p)}
-       IN RepIf(bad # {}, s0, [prop |-> "C07", kind |-> "pid-output-depends-on-multiplex", trace |-> s.tr, at |-> i, run |-> s.v.r,
+           s1 == RepIf(bad # {}, s0, [prop |-> "C07", kind |-> "pid-output-depends-on-multiplex", trace |-> s.tr, at |-> i, run |-> s.v.r,
                                variant |-> s.v.t, mode |-> s.v.mode, k |-> s.v.k, pids |-> bad,
                                nbase |-> Len(Q(s.base, CHOOSE p \in bad : TRUE)), ngot |-> Len(Q(s.cur, CHOOSE p \in bad : TRUE))])
+       \* variants "dupadj" / "dupsep": the PID's own sequence now holds an exact copy of its last packet - right behind the original in the
+       \* first multiplex, behind a null packet in the second; the PID's output is the same in both (whatever the copy does to it)
+       IN IF s.v.t = "dupadj" THEN [s1 EXCEPT !.dupref = Q(s.cur, s.v.cpid)]
+          ELSE IF s.v.t = "dupsep" THEN
+            RepIf(Q(s.cur, s.v.cpid) # s.dupref, s1, [prop |-> "C07", kind |-> "pid-output-depends-on-multiplex", trace |-> s.tr, at |-> i, run |-> s.v.r,
+                               variant |-> s.v.t, mode |-> s.v.mode, k |-> s.v.k, pids |-> {s.v.cpid},
+                               nbase |-> Len(s.dupref), ngot |-> Len(Q(s.cur, s.v.cpid))])
+          ELSE s1
 
 Step(s, e, i) ==
   CASE e.ev = "reset" -> St0(e.t, i)
